@@ -8,6 +8,8 @@
    model the witnesses meet the statement; no general proof of it exists (it needs the inversion of the tokenizer on the
    formatter's output).  Proved: *)
 Require Import Bebop.front.Tok Bebop.front.Parse Bebop.front.Fmt Bebop.front.FmtFacts Bebop.front.FmtSafe.
+Require Import Bebop.front.LexInv Bebop.front.ParseInv Bebop.front.FmtInv.
+From Coq Require Import List.
 
 Definition C16_partial_statement : Prop :=
   (* for EVERY input text, accepted or not: Format does not panic *)
@@ -20,3 +22,21 @@ Proof.
   split; [exact format_never_panics|]. split; [exact typed_enum_16|]. split; [exact array2_16|]. split; [exact import_16|exact flags_16].
 Qed.
 Print Assumptions C16_partial.
+
+(* The statement itself, proved on a core sub-language - for EVERY list of struct definitions (names, field types and field
+   names any identifiers that are not keywords; any number of structs and fields; blank lines between definitions) and
+   EVERY placement of horizontal whitespace, CRs included, in its one-field-per-line text: Format terminates without
+   error, and ReadFile accepts its output as exactly the File the input states (and ReadFile of the input is that File
+   too).  front/FmtInv.v: tokenizer inversion, Format stepped symbolically over the tokens, the output recognised as a
+   text of the same class, the parser inversion of front/ParseInv.v applied to it. *)
+Definition C16_structs_statement : Prop :=
+  forall sl l tail,
+    Forall sdef_ok sl -> map snd l = schema_lex sl -> Forall (fun p => hws (fst p)) l -> sep_ok l -> hws tail ->
+    exists y, (exists s, format (render l tail) = POk y s) /\
+              (exists s, read_file y false = POk (file_of sl) s) /\ (exists s, read_file (render l tail) false = POk (file_of sl) s).
+Theorem C16_structs : C16_structs_statement.
+Proof.
+  intros sl l tail H1 H2 H3 H4 H5. destruct (structs_format_laws sl l tail H1 H2 H3 H4 H5) as (y & Hf & _ & _ & Hr & Hr0).
+  exists y. auto.
+Qed.
+Print Assumptions C16_structs.
